@@ -29,6 +29,7 @@ func c05(c *Ctx) {
 	sDurable(c, "R5/S-DURABLE")
 	sMatch(c, "R5/S-MATCH")
 	sQuorum(c, "R5/S-QUORUM")
+	sState(c, "R6/S-STATE")
 }
 
 func c05R1(c *Ctx, rule string) {
